@@ -162,7 +162,7 @@ func RunQProgramForced(rng *core.Rng, p QProgram, forced []int, systematic bool)
 		obsRng := rng.Fork()
 		start(role, func() {
 			for k := 0; k < 3; k++ {
-				switch obsRng.Intn(4) {
+				switch obsRng.Intn(5) {
 				case 0:
 					o := h.CallOp(role, "size", "")
 					o.N = q.GetSize()
@@ -170,6 +170,15 @@ func RunQProgramForced(rng *core.Rng, p QProgram, forced []int, systematic bool)
 				case 1:
 					o := h.CallOp(role, "empty", "")
 					o.Empty = q.IsEmpty()
+					h.RetOp(o)
+				case 4:
+					// the iterator is a snapshot of the same list the array view shows
+					o := h.CallOp(role, "array", "")
+					it := q.GetIterator()
+					o.Arr = []string{}
+					for it.HasNext() {
+						o.Arr = append(o.Arr, it.GetNext())
+					}
 					h.RetOp(o)
 				case 3:
 					// String() formats the queue through its own Sequential methods
